@@ -120,3 +120,52 @@ Proof.
   - intros x Hx. destruct (E x Hx) as [S _]. unfold reader_truncates in HT. rewrite forallb_forall in HT.
     specialize (HT x Hx). lia.
 Qed.
+
+(* ---------------------------------------------------------------- read_zip_member (extension round 2) *)
+From S2T Require Import C11.ModelRead.
+
+Lemma read_zip_member_bounded : forall x st,
+  0 <= file_size x -> 0 <= s_avail st ->
+  0 <= read_len (read_zip_member x st) <= file_size x.
+Proof.
+  intros x st Hf Ha. unfold read_zip_member, sread.
+  destruct ((0 <? file_size x) && (file_size x <? s_avail st)); cbn [read_len]; [lia|].
+  destruct (file_size x <? 0) eqn:E; lia.
+Qed.
+
+Lemma read_zip_member_work_bounded : forall x st,
+  0 <= file_size x -> read_zip_member_work x st <= Z.max (file_size x) MIN_READ_SIZE.
+Proof.
+  intros x st Hf. unfold read_zip_member_work, swork. destruct (file_size x <? 0) eqn:E; lia.
+Qed.
+
+Lemma repository_reads_truncate : forall (streams : entry -> stream) l,
+  sizes_nonneg l = true -> (forall x, 0 <= s_avail (streams x)) ->
+  reader_truncates (fun x => read_len (read_zip_member x (streams x))) l = true.
+Proof.
+  intros streams l Hnn Ha. unfold reader_truncates. apply forallb_forall. intros x Hx.
+  unfold sizes_nonneg in Hnn. rewrite forallb_forall in Hnn. specialize (Hnn x Hx).
+  pose proof (read_zip_member_bounded x (streams x) ltac:(lia) (Ha x)). lia.
+Qed.
+
+Lemma repository_reads_bounded : forall L es (streams : entry -> stream),
+  limits_exact L = true -> sizes_nonneg (files es) = true -> validate L es = Accept ->
+  (forall x, 0 <= s_avail (streams x)) ->
+  total_out (fun x => read_len (read_zip_member x (streams x))) (files es) <= max_total L
+  /\ (forall x, In x (files es) -> read_len (read_zip_member x (streams x)) <= max_single L
+                                  /\ read_zip_member_work x (streams x) <= Z.max (max_single L) MIN_READ_SIZE).
+Proof.
+  intros L es streams HL Hnn HA Ha.
+  destruct (accepted_output_bounded L es _ HL Hnn HA (repository_reads_truncate streams _ Hnn Ha)) as [T S].
+  split; [exact T|]. intros x Hx. split; [exact (S x Hx)|].
+  destruct (accept_bounds L es HL Hnn HA) as [_ [_ [E _]]]. destruct (E x Hx) as [B _].
+  unfold sizes_nonneg in Hnn. rewrite forallb_forall in Hnn. specialize (Hnn x Hx).
+  pose proof (read_zip_member_work_bounded x (streams x) ltac:(lia)). lia.
+Qed.
+
+Lemma zipfile_read_work_unbounded :
+  exists x st, 0 <= file_size x /\ zipfile_read_work x st > file_size x + MIN_READ_SIZE.
+Proof.
+  exists {| file_size := 65232; compress_size := 65232; is_dir := false |}, {| s_avail := 67108864 |}.
+  vm_compute. split; [discriminate|reflexivity].
+Qed.
